@@ -5,8 +5,10 @@ clause insertion that raises the variable count and explicit raises of the
 count; after every step the new group and the whole name table are compared
 with the reference model (detsim/refmodels/varsref.py).
 """
+import copy
 import io
 import itertools
+import pickle
 
 import networkx
 
@@ -17,6 +19,7 @@ from cnfgen.formula.variables import VariablesManager
 from cnfgen.graphs import (BipartiteGraph, CompleteBipartiteGraph,
                            DirectedGraph, Graph)
 
+from checks import registry
 from detsim.core import Violation, call, exc_signature
 from detsim.refmodels import varsref
 from detsim.runner import REPO
@@ -94,6 +97,9 @@ def _gen_graph(rng, directed):
 
 def _gen_op(rng, config):
     r = rng.random()
+    if rng.random() < 0.04:
+        return {"op": "copy", "how": rng.choice(["deepcopy", "deepcopy",
+                                                 "pickle"])}
     if r < 0.13:
         return {"op": "new_variable",
                 "label": rng.choice(["X", "Y", "x_1", "z^2", "a{b}", None,
@@ -224,9 +230,7 @@ def _mk_bip(g):
     if g.get("complete"):
         return CompleteBipartiteGraph(g["L"], g["R"])
     B = BipartiteGraph(g["L"], g["R"])
-    for u, v in g["edges"]:
-        B.add_edge(u, v)
-    return B
+    return registry.with_history(B, g["edges"], g["L"] + g["R"])
 
 
 def _mk_graph(g, nx=False):
@@ -235,17 +239,13 @@ def _mk_graph(g, nx=False):
         G.add_nodes_from(range(1, g["n"] + 1))
         G.add_edges_from(tuple(e) for e in g["edges"])
         return G
-    G = Graph(g["n"])
-    for u, v in g["edges"]:
-        G.add_edge(u, v)
-    return G
+    G = registry.grown(Graph, g["n"])
+    return registry.with_history(G, g["edges"], g["n"])
 
 
 def _mk_digraph(g):
-    D = DirectedGraph(g["n"])
-    for u, v in g["edges"]:
-        D.add_edge(u, v)
-    return D
+    D = registry.grown(DirectedGraph, g["n"])
+    return registry.with_history(D, g["edges"], g["n"])
 
 
 def _create(V, op):
@@ -370,74 +370,12 @@ def execute(case, ctx):
                 bad("name-misaligned", "variable %d is reported as %r, "
                     "expected %r; table=%r" % (i, g, w, got[:30]))
 
-    for i, op in enumerate(case["ops"], start=1):
-        step[0], step[1] = i, op
-        kind = op["op"]
-        n0 = len(names)
-        if kind == "add_clause":
-            v = n0 + op["delta"]
-            if v >= 1:
-                r = call(F.add_clause, [-v if op["neg"] else v])
-                if r[0] == "exc":
-                    bad_exc("add_clause", r[1])
-                if v > n0:
-                    gaps += 1
-                    ctx.probe("anonymous gap created by a clause")
-                for j in range(n0 + 1, v + 1):
-                    names.append("x%d" % j)
-            ctx.log(i, kind, v)
-            check_table("after-clause")
-            continue
-        if kind == "raise_count":
-            v = n0 + op["delta"]
-            r = call(F.update_variable_number, v)
-            if v < 0:
-                if r[0] == "ok":
-                    bad("negative-count-accepted", "%r" % v)
-            else:
-                if r[0] == "exc":
-                    bad_exc("update_variable_number", r[1])
-                if v > n0:
-                    gaps += 1
-                    ctx.probe("anonymous gap created by a count raise")
-                for j in range(n0 + 1, v + 1):
-                    names.append("x%d" % j)
-            ctx.log(i, kind, v)
-            check_table("after-raise")
-            continue
+    created = []            # (group, op, idxs, first, n0) of live groups
 
-        verdict = validity(op)
-        r = call(_create, V, op)
-        ctx.log(i, kind, verdict, r[0])
-        if verdict == "refuse":
-            refusals += 1
-            ctx.fault("refused_creation")
-            if r[0] == "ok":
-                bad("invalid-creation-accepted/%s" % kind, "returned %r" %
-                    (r[1],))
-            if not isinstance(r[1], (ValueError, TypeError)):
-                bad_exc("invalid-creation-wrong-error/%s" % kind, r[1])
-            check_table("after-refusal")
-            continue
-        if r[0] == "exc":
-            bad_exc("creation-failed/%s" % kind, r[1])
-        g = r[1]
-        idxs = [tuple(t) for t in varsref.expected_indices(op)]
+    def verify(g, op, idxs, first, n0):
+        kind = op["op"]
         size = len(idxs)
-        first = n0 + 1
-        for t in idxs:
-            names.append(varsref.expected_label(op, t))
-        check_table("after-creation")
-        if kind == "new_variable":
-            if g != first:
-                bad("fresh-contiguous-ids/new_variable", "got id %r, "
-                    "expected %d" % (g, first))
-            nonempty += 1
-            continue
-        if size:
-            nonempty += 1
-        else:
-            ctx.probe("empty group created")
+        gnames = names[n0:n0 + size]
         # ---- ids ---------------------------------------------------------
         ids = call(list, g)
         if ids[0] == "exc":
@@ -465,11 +403,11 @@ def execute(case, ctx):
         labs = call(lambda: _force(g.label()))
         if labs[0] == "exc":
             bad_exc("label-no-args/%s" % kind, labs[1])
-        if idxs == [()] and labs[1] == names[n0]:
-            labs = ("ok", names[n0:])
-        if labs[1] != names[n0:]:
+        if idxs == [()] and labs[1] == gnames[0]:
+            labs = ("ok", gnames)
+        if labs[1] != gnames:
             bad("group-labels/%s" % kind, "label() = %r, expected %r" %
-                (labs[1][:20], names[n0:][:20]))
+                (labs[1][:20], gnames[:20]))
         # ---- index <-> id --------------------------------------------------
         for t, vid in zip(idxs, want_ids):
             a = call(g, *t)
@@ -559,6 +497,99 @@ def execute(case, ctx):
             if b[0] == "exc" and not isinstance(b[1], ValueError):
                 bad_exc("illegal-pattern-wrong-error/%s" % kind, b[1])
             ctx.probe("out-of-domain wildcard pattern refused")
+
+
+    for i, op in enumerate(case["ops"], start=1):
+        step[0], step[1] = i, op
+        kind = op["op"]
+        n0 = len(names)
+        if kind == "copy":
+            # the formula (with its manager and groups) is copied and the
+            # history goes on with the copy: a copy of a formula is a formula
+            bundle = (F, V, [c[0] for c in created])
+            if op["how"] == "pickle":
+                r = call(lambda: pickle.loads(pickle.dumps(bundle)))
+            else:
+                r = call(copy.deepcopy, bundle)
+            ctx.log(i, kind, op["how"], r[0])
+            if r[0] == "exc":
+                ctx.note("formula cannot be copied with %s (%s)" %
+                         (op["how"], type(r[1]).__name__))
+                continue
+            F, V, gs = r[1]
+            created = [(g2,) + c[1:] for g2, c in zip(gs, created)]
+            ctx.fault("formula_replaced_by_its_copy:" + op["how"])
+            check_table("after-copy")
+            for c in created:
+                verify(*c)
+            ctx.probe("groups re-verified on a copy of the formula")
+            continue
+        if kind == "add_clause":
+            v = n0 + op["delta"]
+            if v >= 1:
+                r = call(F.add_clause, [-v if op["neg"] else v])
+                if r[0] == "exc":
+                    bad_exc("add_clause", r[1])
+                if v > n0:
+                    gaps += 1
+                    ctx.probe("anonymous gap created by a clause")
+                for j in range(n0 + 1, v + 1):
+                    names.append("x%d" % j)
+            ctx.log(i, kind, v)
+            check_table("after-clause")
+            continue
+        if kind == "raise_count":
+            v = n0 + op["delta"]
+            r = call(F.update_variable_number, v)
+            if v < 0:
+                if r[0] == "ok":
+                    bad("negative-count-accepted", "%r" % v)
+            else:
+                if r[0] == "exc":
+                    bad_exc("update_variable_number", r[1])
+                if v > n0:
+                    gaps += 1
+                    ctx.probe("anonymous gap created by a count raise")
+                for j in range(n0 + 1, v + 1):
+                    names.append("x%d" % j)
+            ctx.log(i, kind, v)
+            check_table("after-raise")
+            continue
+
+        verdict = validity(op)
+        r = call(_create, V, op)
+        ctx.log(i, kind, verdict, r[0])
+        if verdict == "refuse":
+            refusals += 1
+            ctx.fault("refused_creation")
+            if r[0] == "ok":
+                bad("invalid-creation-accepted/%s" % kind, "returned %r" %
+                    (r[1],))
+            if not isinstance(r[1], (ValueError, TypeError)):
+                bad_exc("invalid-creation-wrong-error/%s" % kind, r[1])
+            check_table("after-refusal")
+            continue
+        if r[0] == "exc":
+            bad_exc("creation-failed/%s" % kind, r[1])
+        g = r[1]
+        idxs = [tuple(t) for t in varsref.expected_indices(op)]
+        size = len(idxs)
+        first = n0 + 1
+        for t in idxs:
+            names.append(varsref.expected_label(op, t))
+        check_table("after-creation")
+        if kind == "new_variable":
+            if g != first:
+                bad("fresh-contiguous-ids/new_variable", "got id %r, "
+                    "expected %d" % (g, first))
+            nonempty += 1
+            continue
+        if size:
+            nonempty += 1
+        else:
+            ctx.probe("empty group created")
+        created.append((g, op, idxs, first, n0))
+        verify(g, op, idxs, first, n0)
 
     # ---- renderings use the same table ------------------------------------
     if klass == "cnf":
